@@ -10,6 +10,7 @@ one spelling also sees the other:
   N4  `x: T = e` on a plain local inside a function        ->  `x = e`        (the annotation of a local is never evaluated)
   N5  `if c: ... <jump>` with an else arm                   ->  the else arm follows the if (no else after return/raise/continue/break)
   N8  a new local bound once to an access path and only read afterwards (`entry = table[key]`) -> its reads are the path again
+  N13 a local bound once to a *new* record type built from plain names and read only field by field -> the names themselves
   N11 a loop over a small literal table of constants is unrolled;  N12 getattr(o, 'name') / setattr(o, 'name', v) with a literal name are attribute access
   N10 `x = []` + a loop whose whole body appends to x (optionally under ifs / nested single-statement loops) -> the list / set / dict comprehension
   N9  a new local bound once and read once, in the next statement, before any other call of it -> the expression moves back to the read
@@ -123,6 +124,8 @@ def _is_path(e) -> bool:
         return _is_path(e.value) and _is_path(e.slice)
     if isinstance(e, ast.Tuple):
         return all(_is_path(x) for x in e.elts)
+    if isinstance(e, ast.Call) and isinstance(e.func, ast.Name) and e.func.id == 'type' and len(e.args) == 1 and not e.keywords:
+        return _is_path(e.args[0])          # type(x) is as stable as x
     return False
 
 
@@ -155,7 +158,7 @@ def _n8(fnode, known_locals: set, stats) -> None:
 
     def do_block(body: List[ast.stmt]) -> None:
         for i, st in enumerate(body):
-            if (isinstance(st, ast.Assign) and len(st.targets) == 1 and isinstance(st.targets[0], ast.Name) and isinstance(st.value, (ast.Subscript, ast.Attribute))
+            if (isinstance(st, ast.Assign) and len(st.targets) == 1 and isinstance(st.targets[0], ast.Name) and isinstance(st.value, (ast.Subscript, ast.Attribute, ast.Call))
                     and _is_path(st.value)):
                 a = st.targets[0].id
                 if a in known_locals or a in params or a in nested or binds.get(a) != 1:
@@ -167,9 +170,6 @@ def _n8(fnode, known_locals: set, stats) -> None:
                 reads_rest = sum(1 for r in rest for x in ast.walk(r) if isinstance(x, ast.Name) and x.id == a and isinstance(x.ctx, ast.Load))
                 if reads_total == 0 or reads_total != reads_rest:
                     continue
-                root = st.value
-                while isinstance(root, (ast.Subscript, ast.Attribute)):
-                    root = root.value
                 ok = True
                 path_dump = ast.dump(st.value)
                 for r in rest:
@@ -480,6 +480,115 @@ class _AttrLiterals(ast.NodeTransformer):
         return node
 
 
+def _record_classes(tree, known: set) -> Dict[str, List[str]]:
+    """record types that are new with respect to the reference: {class name: field names in order}"""
+    out: Dict[str, List[str]] = {}
+    for n in getattr(tree, 'body', []):
+        if isinstance(n, ast.ClassDef) and n.name not in known:
+            is_nt = any((isinstance(b, ast.Name) and b.id == 'NamedTuple') or (isinstance(b, ast.Attribute) and b.attr == 'NamedTuple') for b in n.bases)
+            is_dc = any((isinstance(d, ast.Name) and d.id == 'dataclass') or (isinstance(d, ast.Attribute) and d.attr == 'dataclass') or
+                        (isinstance(d, ast.Call) and ((isinstance(d.func, ast.Name) and d.func.id == 'dataclass') or (isinstance(d.func, ast.Attribute) and d.func.attr == 'dataclass')))
+                        for d in n.decorator_list)
+            if is_nt or is_dc:
+                fields = [b.target.id for b in n.body if isinstance(b, ast.AnnAssign) and isinstance(b.target, ast.Name)]
+                if fields and not any(isinstance(b, (ast.FunctionDef, ast.AsyncFunctionDef)) for b in n.body):
+                    out[n.name] = fields
+        elif isinstance(n, ast.Assign) and len(n.targets) == 1 and isinstance(n.targets[0], ast.Name) and n.targets[0].id not in known and isinstance(n.value, ast.Call) \
+                and ((isinstance(n.value.func, ast.Name) and n.value.func.id == 'namedtuple') or (isinstance(n.value.func, ast.Attribute) and n.value.func.attr == 'namedtuple')) \
+                and len(n.value.args) == 2:
+            f = n.value.args[1]
+            if isinstance(f, (ast.List, ast.Tuple)) and all(isinstance(e, ast.Constant) and isinstance(e.value, str) for e in f.elts):
+                out[n.targets[0].id] = [e.value for e in f.elts]
+            elif isinstance(f, ast.Constant) and isinstance(f.value, str):
+                out[n.targets[0].id] = f.value.replace(',', ' ').split()
+    return out
+
+
+def _n13(fnode, records: Dict[str, List[str]], stats) -> None:
+    """N13: a local that is only ever bound to a *new* record type (`e = _Fields(pattern, merchant, category)`, in one or several branches)
+    and only read field by field is a bundle of plain variables: each construction becomes a tuple assignment to per-field variables and
+    `e.category` reads the variable.  A field whose value is, in every construction, the variable of the same name (or a constant) keeps
+    that name; otherwise the variable is called e__<field>."""
+    if not records:
+        return
+    cands: Dict[str, List[ast.Assign]] = {}
+    stores: Dict[str, int] = {}
+    for n in ast.walk(fnode):
+        if isinstance(n, ast.Name) and isinstance(n.ctx, (ast.Store, ast.Del)):
+            stores[n.id] = stores.get(n.id, 0) + 1
+    for st in [x for x in ast.walk(fnode) if isinstance(x, ast.Assign)]:
+        if len(st.targets) == 1 and isinstance(st.targets[0], ast.Name) and isinstance(st.value, ast.Call) and isinstance(st.value.func, ast.Name) and st.value.func.id in records:
+            cands.setdefault(st.targets[0].id, []).append(st)
+    for x, defs in cands.items():
+        cls = {d.value.func.id for d in defs}
+        if len(cls) != 1 or stores.get(x) != len(defs):
+            continue
+        fields = records[next(iter(cls))]
+        per_def = []
+        ok = True
+        for d in defs:
+            c = d.value
+            if len(c.args) == 1 and isinstance(c.args[0], ast.Starred) and not c.keywords:
+                per_def.append(('star', c.args[0].value))
+                continue
+            if any(isinstance(a, ast.Starred) for a in c.args) or any(k.arg is None or k.arg not in fields for k in c.keywords) or len(c.args) > len(fields):
+                ok = False
+                break
+            fmap = dict(zip(fields, c.args))
+            fmap.update({k.arg: k.value for k in c.keywords})
+            if set(fmap) != set(fields):
+                ok = False
+                break
+            per_def.append(('args', fmap))
+        if not ok:
+            continue
+        reads = [n for n in ast.walk(fnode) if isinstance(n, ast.Attribute) and isinstance(n.value, ast.Name) and n.value.id == x and isinstance(n.ctx, ast.Load) and n.attr in fields]
+        read_ids = {id(n.value) for n in reads}
+        if not reads or any(isinstance(n, ast.Name) and n.id == x and isinstance(n.ctx, ast.Load) and id(n) not in read_ids for n in ast.walk(fnode)):
+            continue
+        # variable name per field
+        all_names = {n.id for n in ast.walk(fnode) if isinstance(n, ast.Name)} | {a.arg for a in ast.walk(fnode) if isinstance(a, ast.arg)}
+        var = {}
+        for f_ in fields:
+            vals = [m[f_] for kind, m in per_def if kind == 'args']
+            same = all((isinstance(v, ast.Name) and v.id == f_) or isinstance(v, ast.Constant) or (isinstance(v, (ast.List, ast.Tuple, ast.Dict)) and not ast.dump(v).count('Name')) for v in vals)
+            # the plain name may be used when the function uses it for nothing else than this field: every other store of it is `f = x.f`
+            other = [n for n in ast.walk(fnode) if isinstance(n, ast.Assign) and any(isinstance(t, ast.Name) and t.id == f_ for t in n.targets)
+                     and not (isinstance(n.value, ast.Attribute) and isinstance(n.value.value, ast.Name) and n.value.value.id == x and n.value.attr == f_)]
+            var[f_] = f_ if (same and not other) else f'{x}__{f_}'
+            if var[f_] != f_ and var[f_] in all_names:
+                ok = False
+        if not ok:
+            continue
+
+        def targets():
+            t = ast.Tuple(elts=[ast.Name(id=var[f_], ctx=ast.Store()) for f_ in fields], ctx=ast.Store())
+            return t
+        for d, (kind, m) in zip(defs, per_def):
+            if kind == 'star':
+                d.targets = [ast.copy_location(targets(), d.targets[0])]
+                d.value = m
+            else:
+                d.targets = [ast.copy_location(targets(), d.targets[0])]
+                d.value = ast.copy_location(ast.Tuple(elts=[m[f_] for f_ in fields], ctx=ast.Load()), d.value)
+            ast.fix_missing_locations(d)
+
+        class R(ast.NodeTransformer):
+            def visit_Attribute(self, node):
+                self.generic_visit(node)
+                if isinstance(node.value, ast.Name) and node.value.id == x and isinstance(node.ctx, ast.Load) and node.attr in fields:
+                    return ast.copy_location(ast.Name(id=var[node.attr], ctx=ast.Load()), node)
+                return node
+        R().visit(fnode)
+        stats['N13'] = stats.get('N13', 0) + 1
+
+
+def _encloses_loop(fnode, record_stmt, store_name) -> bool:
+    """is the later store in the *same loop iteration prefix* as the record construction, i.e. a re-binding at the top of the next iteration
+    (the loop's own per-iteration unpacking that precedes the record in program order of every iteration)?  Conservative: False."""
+    return False
+
+
 def normalise(tree: ast.AST, ref: dict = None) -> Dict[str, int]:
     stats: Dict[str, int] = {}
     consts = {}
@@ -487,12 +596,15 @@ def normalise(tree: ast.AST, ref: dict = None) -> Dict[str, int]:
         if isinstance(n, ast.Assign) and len(n.targets) == 1 and isinstance(n.targets[0], ast.Name) and isinstance(n.value, (ast.Tuple, ast.List)):
             consts[n.targets[0].id] = n.value
     if ref:
+        records = _record_classes(tree, {x[0] for x in ref.get('#classes', {}).get('l', [])}) if '#classes' in ref else {}
+
         def rec(body, prefix):
             for n in body:
                 if isinstance(n, (ast.FunctionDef, ast.AsyncFunctionDef)):
                     q = f'{prefix}.{n.name}' if prefix else n.name
                     ent = ref.get(q)
                     if ent is not None:
+                        _n13(n, records, stats)
                         _n8(n, {x[0] for x in ent.get('l', [])}, stats)
                         _n9(n, {x[0] for x in ent.get('l', [])}, stats)
                     rec(n.body, q)
